@@ -109,6 +109,15 @@ func genFlow(prop string, r *rng, n int, tier string, emit func(string)) {
 	} {
 		emit(c)
 	}
+	if prop == "C02" || prop == "C04" {
+		// a non-discarding error handler that is stalled for 1.3 s while its node keeps failing: the node waits, no report is lost
+		emit("tree 31 1 N sync 1 1 0 0 0 0 0 100 1 0 0 0 1 N hsync 1 1 0 0 100 0 0 0 1 0 0 0 0 ; stream 8 ; opts stop=- gm=4 gate=1 gatems=1300")
+	}
+	if prop == "C01" || prop == "C04" {
+		// an async single-worker node whose completions arrive concurrently, a slow first child and a fast second one
+		emit("tree 37 1 N async 1 2 0 0 100 0 0 0 1 1 0 2 0 N sync 1 1 0 0 100 0 0 0 1 0 300 0 0 N sync 1 1 0 0 100 0 0 0 1 0 0 0 0 ; stream 60 ; opts stop=- gm=4")
+		emit("tree 41 1 N async 1 1 0 0 100 0 0 0 1 1 0 3 0 N sync 1 1 0 0 100 0 0 0 1 0 300 0 0 N sync 2 1 0 0 100 0 0 0 1 0 0 0 0 N sync 1 2 0 0 100 0 0 0 1 0 20 0 0 ; stream 80 ; opts stop=- gm=16")
+	}
 	if prop == "C04" || prop == "C16" {
 		emit("tree 17 1 N fanout 1 1 0 0 0 0 0 0 3 0 0 2 0 N sync 1 1 1 0 100 0 0 0 1 0 300 0 0 N sync 1 1 0 0 100 0 0 0 1 0 0 0 0 ; stream 30 ; opts stop=- gm=4")
 		emit("tree 19 1 N sync 2 1 0 0 20 0 0 80 1 0 0 0 1 N hsync 1 1 1 0 100 0 0 0 1 0 300 0 0 ; stream 40 ; opts stop=- gm=4")
@@ -250,6 +259,7 @@ func execFlow(input string) string {
 	stop := -1
 	gm := 4
 	gateIdx := -1
+	gateMs := 0
 	bySignal := false
 	for _, seg := range segs[1:] {
 		f := strings.Fields(seg)
@@ -269,6 +279,9 @@ func execFlow(input string) string {
 				}
 				if o == "sig=1" {
 					bySignal = true
+				}
+				if strings.HasPrefix(o, "gatems=") {
+					gateMs, _ = strconv.Atoi(strings.TrimPrefix(o, "gatems="))
 				}
 			}
 		}
@@ -310,7 +323,12 @@ func execFlow(input string) string {
 	}()
 	returned := true
 	progress := ""
-	if gate != nil {
+	if gate != nil && gateMs > 0 {
+		// the gated node (any node, e.g. a non-discarding error handler) is simply stalled for a while: everything waits
+		// for it, nothing may be lost
+		time.Sleep(time.Duration(gateMs) * time.Millisecond)
+		close(gate)
+	} else if gate != nil {
 		// while the discarding node is stalled, the source must still be able to hand over its whole stream
 		ok := false
 		for t0 := time.Now(); time.Since(t0) < 3*time.Second; time.Sleep(2 * time.Millisecond) {
